@@ -426,7 +426,7 @@ package graphql
 //@   assigns class:list.
 //@   ensures result != nil && result.Value == v && l.len == old(l.len) + 1
 //@ extern func container/list::List.MoveToFront
-//@   assigns class:list.Element, class:list.List.root
+//@   assigns class:list.Element.next, class:list.Element.prev, class:list.List.root
 //@   ensures l.len == old(l.len)
 //@ extern func container/list::List.Remove
 //@   assigns class:list.
